@@ -101,6 +101,11 @@ func (c *TableWriter) WriteRun(entries iter.Seq[kv.Entry], targetSize uint64) ([
 		for buffer.size < int(targetSize) {
 			entry, ok := next()
 			if !ok {
+				// The previous table ended exactly on the last entry: there is
+				// nothing left to write, and an empty table cannot be scanned.
+				if len(buffer.entries) == 0 && len(tables) > 0 {
+					return tables, nil
+				}
 				t, err := c.Write(buffer.all())
 				if err != nil {
 					return nil, err
